@@ -1522,3 +1522,195 @@ Proof.
   subst c. pose proof (WR k s Hk C1). lia.
 Qed.
 
+
+(* ------------------------------------------------------------------ *)
+(* Why a node is evaluated in a cycle (C03, "exactly when")             *)
+(* ------------------------------------------------------------------ *)
+Section Cause.
+Variable cfgs : list ncfg.
+Variable beh : behaviour.
+Notation n := (length cfgs).
+
+(* node i has, right now, an active input bound to node p *)
+Definition act_from (g : gst) (i p : nat) : bool :=
+  existsb (fun sa => (i_src (fst sa) =? p)%nat && snd sa) (combine (c_ins (cfg cfgs i)) (n_act (node_at i g))).
+
+(* effect of notify_from on the slots: exactly the started nodes with an active input from src become due now *)
+Lemma notify_slots l : forall j src g k,
+  length (g_slots g) = n ->
+  (forall m c, nth_error l m = Some c -> (j + m < n)%nat /\ c = cfg cfgs (j + m)) ->
+  slot_at k (notify_from l j src g) =
+    if (j <=? k)%nat && (k <? j + length l)%nat && act_from g k src && n_started (node_at k g)
+    then g_now g else slot_at k g.
+Proof.
+  induction l as [|c r IH]; intros j src g k Hlen Hl; simpl.
+  - replace ((j <=? k)%nat && (k <? j + 0)%nat) with false by lia. reflexivity.
+  - destruct (Hl 0%nat c eq_refl) as [Hj Hc]. rewrite Nat.add_0_r in Hj, Hc.
+    set (g' := if _ && _ then schedule_node j (g_now g) g else g).
+    assert (Nn : g_now g' = g_now g) by (unfold g'; destruct (_ && _); auto; apply schedule_node_now).
+    assert (Nd : forall q, node_at q g' = node_at q g) by (intros q; unfold g'; destruct (_ && _); auto; apply node_at_schedule_node).
+    assert (Nl : length (g_slots g') = n) by (unfold g'; destruct (_ && _); auto; rewrite schedule_node_len; auto).
+    rewrite IH; auto.
+    2:{ intros m c' Hm. destruct (Hl (S m) c' Hm) as [A B]. replace (S j + m)%nat with (j + S m)%nat by lia. auto. }
+    unfold act_from. rewrite !Nd, Nn.
+    destruct (Nat.eq_dec k j) as [->|Hne].
+    + replace ((S j <=? j)%nat && (j <? S j + length r)%nat) with false by lia.
+      replace ((j <=? j)%nat && (j <? j + S (length r))%nat) with true by lia. simpl.
+      unfold g'. rewrite Hc.
+      match goal with |- context [if ?b then schedule_node _ _ _ else _] => destruct b eqn:E end; auto.
+      destruct (schedule_node_spec j (g_now g) g) as (_ & _ & _ & _ & N4). specialize (N4 ltac:(lia)).
+      destruct N4 as (_ & Y & _). assert (AP : sn_applies j (g_now g) g = true) by (unfold sn_applies; lia).
+      destruct (Y AP) as [YS _]. unfold slot_at. rewrite YS. apply slot_at_set_same. lia.
+    + replace ((j <=? k)%nat && (k <? j + S (length r))%nat) with ((S j <=? k)%nat && (k <? S j + length r)%nat) by lia.
+      assert (Sk : slot_at k g' = slot_at k g).
+      { unfold g'. destruct (_ && _); auto. apply schedule_node_slot_other; auto. }
+      rewrite Sk. reflexivity.
+Qed.
+
+Lemma notify_slots_all src g k :
+  length (g_slots g) = n -> (k < n)%nat ->
+  slot_at k (notify_from cfgs 0 src g) = if act_from g k src && n_started (node_at k g) then g_now g else slot_at k g.
+Proof.
+  intros Hl Hk. rewrite notify_slots; auto.
+  - replace ((0 <=? k)%nat && (k <? 0 + n)%nat) with true by lia. reflexivity.
+  - intros m c Hm. apply (cfgs_nth_error cfgs m c Hm).
+Qed.
+
+(* One operation of node i: another node's slot changes only by an emit, and then exactly as above.
+   [w] records whether node i has written its output so far in this evaluation. *)
+Definition wrote (g : gst) (i : nat) : bool := n_lmt (node_at i g) =? g_now g.
+
+Lemma do_op_slot_other i opi o g k :
+  length (g_slots g) = n -> length (g_nodes g) = n -> (i < n)%nat -> (k < n)%nat -> k <> i ->
+  let g' := do_op cfgs i true opi o g in
+  length (g_slots g') = n /\ length (g_nodes g') = n /\ node_at k g' = node_at k g /\
+  ( (slot_at k g' = slot_at k g /\ wrote g' i = wrote g i) \/
+    (wrote g' i = true /\ slot_at k g' = if act_from g k i && n_started (node_at k g) then g_now g else slot_at k g) ).
+Proof.
+  intros Hls Hln Hi Hk Hne. cbn zeta.
+  assert (Hother : node_at k (do_op cfgs i true opi o g) = node_at k g) by (apply do_op_other; auto).
+  assert (Hlen2 : length (g_nodes (do_op cfgs i true opi o g)) = n) by (rewrite len_do_op; auto).
+  unfold do_op in *. destruct (negb (g_err g =? 0)); [repeat split; auto|]. cbn zeta in *.
+  assert (SU : forall f, slot_at k (upd_node i f g) = slot_at k g) by reflexivity.
+  assert (WS : forall s', wrote (upd_node i (set_sch s') g) i = wrote g i).
+  { intros s'. unfold wrote. rewrite node_at_upd_same by lia. reflexivity. }
+  destruct o.
+  - (* OSchedule *)
+    destruct (c_sched _); [|repeat split; auto].
+    destruct (schedule _ _ _ _ _) as [s' q]. split; [|split; [auto|split; [auto|left]]].
+    + simpl. destruct q; simpl; rewrite ?schedule_node_len; auto.
+    + split.
+      * unfold slot_at at 1. simpl g_slots. fold (slot_at k (opt_schedule i q (upd_node i (set_sch s') g))).
+        destruct q; simpl; [rewrite schedule_node_slot_other by auto|]; apply SU.
+      * unfold wrote. rewrite node_at_emit, node_at_opt_schedule. simpl g_now.
+        destruct q; simpl; rewrite ?schedule_node_now; apply WS.
+  - destruct (c_sched _); repeat split; auto. left. split; [reflexivity|]. unfold wrote. rewrite node_at_emit. apply WS.
+  - destruct (c_sched _); repeat split; auto. left. split; [reflexivity|]. unfold wrote. rewrite node_at_emit. apply WS.
+  - destruct (c_sched _); [|repeat split; auto]. destruct (pop_tag _ _ _) as [s' w]. repeat split; auto.
+    left. split; [reflexivity|]. unfold wrote. rewrite node_at_emit. apply WS.
+  - destruct (c_sched _); repeat split; auto. left. split; [reflexivity|]. unfold wrote. rewrite node_at_emit. apply WS.
+  - (* OEmit *)
+    destruct (c_out _ && true) eqn:Eo; [|repeat split; auto].
+    set (v := a + sum_valid (read_inputs (nth i cfgs dflt_cfg) g)).
+    set (g1 := upd_node i (set_out v (g_now g)) g).
+    assert (L1 : length (g_slots g1) = n) by (unfold g1; auto).
+    split; [|split; [auto|split; [auto|right]]].
+    + unfold emit; simpl. clear - L1. assert (G : forall l j src g0, length (g_slots (notify_from l j src g0)) = length (g_slots g0)).
+      { induction l as [|c r IH]; intros j src g0; simpl; auto. rewrite IH. destruct (_ && _); auto. apply schedule_node_len. }
+      rewrite G. exact L1.
+    + split.
+      * unfold wrote. rewrite node_at_emit, node_at_notify. unfold g1. rewrite node_at_upd_same by lia. simpl.
+        rewrite notify_from_now. simpl. lia.
+      * unfold slot_at at 1. simpl g_slots. fold (slot_at k (notify_from cfgs 0 i g1)).
+        rewrite notify_slots_all; auto. unfold act_from, g1. rewrite node_at_upd_node_other by auto. reflexivity.
+  - (* ORaw *) split; [rewrite schedule_node_len; auto|]. split; [auto|]. split; [auto|left]. split.
+    + apply schedule_node_slot_other; auto.
+    + unfold wrote. rewrite node_at_schedule_node, schedule_node_now. reflexivity.
+  - repeat split; auto.
+  - (* OMakePassive *) split; [auto|]. split; [auto|]. split; [auto|left]. split; [reflexivity|].
+    unfold wrote. rewrite node_at_upd_same by lia. reflexivity.
+  - split; [auto|]. split; [auto|]. split; [auto|left]. split; [reflexivity|].
+    unfold wrote. rewrite node_at_upd_same by lia. reflexivity.
+  - repeat split; auto.
+Qed.
+
+Lemma do_ops_slot_other i os : forall opi g k,
+  length (g_slots g) = n -> length (g_nodes g) = n -> (i < n)%nat -> (k < n)%nat -> k <> i ->
+  let A := act_from g k i && n_started (node_at k g) in
+  (wrote g i = true -> A = true -> slot_at k g = g_now g) ->
+  let gf := do_ops cfgs i true opi os g in
+  length (g_slots gf) = n /\ length (g_nodes gf) = n /\ node_at k gf = node_at k g /\
+  (wrote g i = true -> wrote gf i = true) /\
+  slot_at k gf = (if wrote gf i && A then g_now g else slot_at k g).
+Proof.
+  induction os as [|o r IH]; intros opi g k Hls Hln Hi Hk Hne A HP gf; unfold gf; simpl.
+  - repeat split; auto. destruct (wrote g i) eqn:W; simpl; auto. destruct A eqn:EA; auto.
+  - destruct (do_op_slot_other i opi o g k Hls Hln Hi Hk Hne) as (L1 & L2 & Nk & D).
+    set (g1 := do_op cfgs i true opi o g) in *.
+    assert (Now1 : g_now g1 = g_now g) by apply do_op_now.
+    assert (A1 : act_from g1 k i && n_started (node_at k g1) = A) by (unfold act_from; rewrite Nk; reflexivity).
+    assert (HP1 : wrote g1 i = true -> act_from g1 k i && n_started (node_at k g1) = true -> slot_at k g1 = g_now g1).
+    { rewrite A1, Now1. intros W1 EA. destruct D as [[S W]|[W S]].
+      - rewrite S. apply HP; auto. rewrite <- W; auto.
+      - rewrite S. fold A. rewrite EA. reflexivity. }
+    destruct (IH (opi + 1) g1 k L1 L2 Hi Hk Hne HP1) as (M1 & M2 & M3 & M4 & M5).
+    rewrite A1, Now1 in M5.
+    split; auto. split; auto. split; [rewrite M3; auto|]. split.
+    + intros W. apply M4. destruct D as [[_ W']|[W' _]]; [rewrite W'; auto|auto].
+    + rewrite M5. destruct D as [[S W]|[W S]].
+      * rewrite S. reflexivity.
+      * rewrite (M4 W). simpl. rewrite S. fold A. destruct A; reflexivity.
+Qed.
+
+(* the evaluation of node i: any other node's slot becomes "now" exactly when i wrote and that node has an
+   active input bound to i; otherwise it is untouched *)
+Lemma eval_node_slot_other i g k :
+  length (g_slots g) = n -> length (g_nodes g) = n -> (i < n)%nat -> (k < n)%nat -> k <> i ->
+  wrote g i = false ->
+  let gf := eval_node cfgs beh i g in
+  length (g_slots gf) = n /\ length (g_nodes gf) = n /\ node_at k gf = node_at k g /\
+  slot_at k gf = (if wrote gf i && act_from g k i && n_started (node_at k g) then g_now g else slot_at k g).
+Proof.
+  intros Hls Hln Hi Hk Hne W gf. unfold gf.
+  assert (Nk : node_at k (eval_node cfgs beh i g) = node_at k g) by (apply eval_node_other; auto).
+  assert (L2 : length (g_nodes (eval_node cfgs beh i g)) = n) by (rewrite len_eval_node; auto).
+  unfold eval_node in *. destruct (negb (n_started (node_at i g))).
+  { repeat split; auto. rewrite W. reflexivity. }
+  cbn zeta in *.
+  (* the tail (advance / re-arm) touches only node i's slot and scheduler state *)
+  assert (TAIL : forall g1 (b : bool), length (g_slots g1) = n -> length (g_nodes g1) = n ->
+     let gt := (if negb (g_err g1 =? 0) then g1 else
+        if c_sched (nth i cfgs dflt_cfg) then
+          (if b then let '(s', push) := advance (g_now g) (n_sch (node_at i g1)) in opt_schedule i push (upd_node i (set_sch s') g1)
+           else if is_scheduled (n_sch (node_at i g1)) then schedule_node i (next_scheduled_time (n_sch (node_at i g1))) g1 else g1)
+        else g1) in
+     length (g_slots gt) = n /\ slot_at k gt = slot_at k g1 /\ wrote gt i = wrote g1 i).
+  { intros g1 b H1 H2. cbn zeta. destruct (negb (g_err g1 =? 0)); [auto|]. destruct (c_sched _); [|auto]. destruct b.
+    - destruct (advance (g_now g) (n_sch (node_at i g1))) as [s' q].
+      assert (WU : wrote (upd_node i (set_sch s') g1) i = wrote g1 i).
+      { unfold wrote. rewrite node_at_upd_same by lia. reflexivity. }
+      destruct q; cbn [opt_schedule].
+      + split; [rewrite schedule_node_len; auto|]. split; [rewrite schedule_node_slot_other by auto; reflexivity|].
+        unfold wrote in *. rewrite node_at_schedule_node, schedule_node_now. exact WU.
+      + split; [auto|]. split; [reflexivity|]. exact WU.
+    - destruct (is_scheduled (n_sch (node_at i g1))); [|auto]. split; [rewrite schedule_node_len; auto|].
+      split; [apply schedule_node_slot_other; auto|]. unfold wrote. rewrite node_at_schedule_node, schedule_node_now. reflexivity. }
+  set (c := nth i cfgs dflt_cfg) in *.
+  destruct (match c_ins c with [] => true | _ :: _ => ready c g end).
+  - match goal with |- context [do_ops cfgs i true 0 ?o ?gb0] => set (ops := o) in *; set (gb := gb0) in * end.
+    assert (Lb1 : length (g_slots gb) = n) by (unfold gb; auto).
+    assert (Lb2 : length (g_nodes gb) = n) by (unfold gb; simpl; rewrite update_length; auto).
+    assert (Wb : wrote gb i = false).
+    { unfold wrote, gb. rewrite node_at_emit, node_at_upd_same by lia. exact W. }
+    assert (Nkb : node_at k gb = node_at k g) by (unfold gb; rewrite node_at_emit; apply node_at_upd_node_other; auto).
+    destruct (do_ops_slot_other i ops 0 gb k Lb1 Lb2 Hi Hk Hne) as (M1 & M2 & M3 & _ & M5).
+    { rewrite Wb. discriminate. }
+    set (g1 := do_ops cfgs i true 0 ops gb) in *.
+    destruct (TAIL g1 (c_sched c && is_scheduled_now (g_now g) (n_sch (node_at i g))) M1 M2) as (T1 & T2 & T3).
+    split; [exact T1|]. split; [exact L2|]. split; [exact Nk|].
+    rewrite T2, T3, M5. unfold act_from. rewrite Nkb. rewrite Bool.andb_assoc. reflexivity.
+  - destruct (TAIL g (c_sched c && is_scheduled_now (g_now g) (n_sch (node_at i g))) Hls Hln) as (T1 & T2 & T3).
+    split; [exact T1|]. split; [exact L2|]. split; [exact Nk|].
+    rewrite T2, T3, W. reflexivity.
+Qed.
+End Cause.
